@@ -17,7 +17,7 @@ func init() { core.Register(c13{}) }
 func (c13) ID() string    { return "C13" }
 func (c13) Level() string { return "exploration" }
 func (c13) Rule() string {
-	return "seeded starts with 0..10 runners (unordered, ordered, priority-ordered, priority-only, lazy, runner+closer, with their own dependencies on other components and on each other) among 0..20 other components (eager, lazy, cyclic), arbitrary Order values incl. ties; in half of the cases one or two runners are made to fail. Offline checker over the per-start event log (logical clock shared by Init/AfterPropertiesSet methods, the observing post-processor and Run methods): successful start => every runner has exactly one run event, every run event follows the last lifecycle event of every component created in the start, run events obey the ordering contract; failing runner => Run returns an error, the last run event is a failing runner, nothing ran twice, and every runner that did not run could legally be sorted after the failing one. non-trivial = >= 2 runners of >= 2 classes, or a failing runner that is not last; distinct = canonical scenario signature; zero-size runners of different types and orders take part; runners whose Order() is settled during their own initialization; a component contributed programmatically by a factory post-processor is initialised before any runner; runner errors of a field-less value type; a component collecting runners by method name"
+	return "seeded starts with 0..10 runners (unordered, ordered, priority-ordered, priority-only, lazy, runner+closer, with their own dependencies on other components and on each other) among 0..20 other components (eager, lazy, cyclic), arbitrary Order values incl. ties; in half of the cases one or two runners are made to fail. Offline checker over the per-start event log (logical clock shared by Init/AfterPropertiesSet methods, the observing post-processor and Run methods): successful start => every runner has exactly one run event, every run event follows the last lifecycle event of every component created in the start, run events obey the ordering contract; failing runner => Run returns an error, the last run event is a failing runner, nothing ran twice, and every runner that did not run could legally be sorted after the failing one. non-trivial = >= 2 runners of >= 2 classes, or a failing runner that is not last; distinct = canonical scenario signature; zero-size runners of different types and orders take part; runners whose Order() is settled during their own initialization; a component contributed programmatically by a factory post-processor is initialised before any runner; runner errors of a field-less value type; a component collecting runners by method name; runners exposed through decorators of a few shared decorator types (a post-processor wraps each after its initialisation)"
 }
 func (c13) Assumptions() []string {
 	return []string{"with Order ties the position of the failing runner is not unique; the set of runners that ran must be a prefix of some contract-respecting sequence"}
@@ -48,7 +48,14 @@ func mayFollow(a, b part) bool {
 }
 
 func (p c13) Run(c *core.Ctx) {
-	sc := RandomGraph(c.Rng, GraphOpts{MinN: 0, MaxN: 12, Types: world.TypesPlain, PCycle: 0.4, Chords: 2, ByTypeSlice: 0.1, QualSlice: 0.1, PUnnamed: 0.3})
+	// in a fifth of the cases a post-processor exposes (some of) the runners through decorators - a tracing
+	// wrapper around each - which forward Run and the ordering role: every decorated runner still runs once
+	decorate := c.Rng.Intn(5) == 0
+	gopts := GraphOpts{MinN: 0, MaxN: 12, Types: world.TypesPlain, PCycle: 0.4, Chords: 2, ByTypeSlice: 0.1, QualSlice: 0.1, PUnnamed: 0.3}
+	if decorate {
+		gopts.ByTypeSlice, gopts.QualSlice = 0, 0 // (the decorators play no other role than runner/closer)
+	}
+	sc := RandomGraph(c.Rng, gopts)
 	g := &world.G{Rng: c.Rng, Sc: sc}
 	nOther := len(sc.Nodes)
 	nr := c.Rng.Intn(11)
@@ -69,7 +76,7 @@ func (p c13) Run(c *core.Ctx) {
 		for x := 0; x < c.Rng.Intn(3); x++ {
 			if nOther > 0 && c.Rng.Intn(2) == 0 {
 				g.EdgeByName(k, c.Rng.Intn(nOther), "")
-			} else if len(runners) > 1 {
+			} else if len(runners) > 1 && !decorate {
 				j := runners[c.Rng.Intn(len(runners))]
 				if j != k {
 					g.EdgeByName(k, j, "", "any")
@@ -148,6 +155,16 @@ func (p c13) Run(c *core.Ctx) {
 		}
 	}
 	g.ShuffleOrders()
+	if decorate && nr > 0 {
+		var names []string
+		for _, k := range runners {
+			if c.Rng.Intn(4) != 0 {
+				names = append(names, sc.Nodes[k].DisplayName())
+			}
+		}
+		extra = append(extra, world.NewDecorator(names...))
+		c.Count("runners_exposed_through_decorators", len(names))
+	}
 	r := world.Build(sc, world.Options{Extra: extra})
 	world.SetZeroLog(r.Log)
 	r.Go()
